@@ -384,6 +384,10 @@ def _get_equilibrium_default_method(method):
 def _get_minimizer_default_method(method):
     if method is None:
         return "broyden1"
+    elif isinstance(method, str):
+        # the name decides between the rootfinder and minimizer algorithms
+        # in minimize(), so it must be normalized as in get_method
+        return method.lower()
     else:
         return method
 
